@@ -253,7 +253,8 @@ Inductive op :=
 | IngestSensitive (o : outcome)                (* ingest_sensitive(...): TOXIC_BYPRODUCT, created now *)
 | DigestOp (k : option Z)                      (* digest(max_items=k) *)
 | Autophagy
-| Advance (d : Z).                             (* the clock moves *)
+| Advance (d : Z)                              (* the clock moves *)
+| ClearBin.                                    (* clear_recycling_bin(): self._recycling_bin.clear(), without the lock *)
 
 Inductive ret :=
 | RNone
@@ -268,6 +269,7 @@ Definition step (cfg : config) (s : state) (o : op) : state * ret :=
   | DigestOp k => let '(s', r) := digest cfg false k s in (s', RDigest r)
   | Autophagy => let '(s', n) := autophagy cfg s in (s', RRemoved n)
   | Advance d => (set_now s (now s + d), RNone)
+  | ClearBin => (set_bin s [], RNone)
   end.
 
 Definition run (cfg : config) (ops : list op) : state :=
